@@ -14,7 +14,7 @@ From Coq Require Import String.
 From Coq Require Import List ZArith NArith Bool.
 From FIM Require Import Base.Str Base.Json Model.Serial1Text Model.Serial1Graph Model.Serial1Json Model.Serial1Corr Model.Serial1Disjoint.
 From FIM Require Import Proofs.Serial1Text Proofs.Serial1Doc Proofs.Serial1Store Proofs.Serial1Main Proofs.Serial1Inv.
-From FIM Require Import Proofs.Serial1JsonText Proofs.Serial1DisjRT.
+From FIM Require Import Proofs.Serial1JsonText Proofs.Serial1DisjRT Proofs.Serial1Extract.
 Import ListNotations.
 
 (* ================= text layer ================= *)
@@ -49,6 +49,24 @@ Print Assumptions C01_json_document_roundtrip.
 Theorem C01_label_markup : forall g d, graph_wf g = true -> serialize_graphml g = Some d -> labels_ok d = true.
 Proof. exact graphml_label_markup. Qed.
 Print Assumptions C01_label_markup.
+
+(* ================= what the text holds, in any store ================= *)
+(* also in a store with links between nodes of different graph ids (merge_nodes leaves such links until the other
+   graph's nodes are re-homed): the graph serialize_graph works on consists of exactly the stored nodes that carry
+   the graph id and exactly the stored links with BOTH ends among them ... *)
+Theorem C01_extract_exactly_own_nodes_and_links : forall s gid g, extract s gid = Some g ->
+  (forall n, In n (g_nodes g) <-> In n (s_nodes s) /\ has_gid gid n = true)
+  /\ (forall e, In e (g_edges g) <->
+                In e (s_edges s) /\ In (fst (fst e)) (map fst (g_nodes g)) /\ In (snd (fst e)) (map fst (g_nodes g)))
+  /\ closed g.
+Proof. exact extract_exact. Qed.
+Print Assumptions C01_extract_exactly_own_nodes_and_links.
+
+(* ... and the text denotes exactly that graph (so the round-trip theorems below apply to either side of a cross link) *)
+Theorem C01_serialized_text_denotes_the_graph : forall f s gid g, extract s gid = Some g -> fmt_ok f g = true ->
+  exists t, serialize_graph s gid f = Some (Some t) /\ text_graph t = Some g.
+Proof. exact serialize_graph_denotes. Qed.
+Print Assumptions C01_serialized_text_denotes_the_graph.
 
 (* ================= store + importer: the four entry points, both formats ================= *)
 (* import_graph_from_string / import_graph_from_file (new graph id gid') *)
@@ -277,3 +295,24 @@ Example C01_disjoint_example :
   | _ => False
   end.
 Proof. vm_compute. repeat split. Qed.
+
+(* a store with a cross-graph link: ex_graph (graph "g") and ex_other (graph "other") loaded by ONE direct load together
+   with a link between a node of each; either side serializes without the foreign node and the cross link, and
+   round-trips through every entry point in both formats *)
+Example C01_cross_link_example :
+  store_wf ex_cross_store = true
+  /\ List.length (s_edges ex_cross_store) = 2%nat
+  /\ option_map content (extract ex_cross_store (S"g")) = Some (content ex_graph)
+  /\ option_map content (extract ex_cross_store (S"other")) = Some (content ex_other)
+  /\ forall f ep,
+       match serialize_graph ex_cross_store (S"other") f with
+       | Some (Some t) =>
+           let '(s', r) := import_via ep ex_cross_store t (S"new id") in
+           let rid := if is_direct ep then S"other" else S"new id" in
+           r = ROk rid
+           /\ option_map content (extract s' rid)
+              = Some (content (if is_direct ep then ex_other else restamp (S"new id") ex_other))
+           /\ option_map content (extract s' (S"g")) = Some (content ex_graph)
+       | _ => False
+       end.
+Proof. repeat split; try (vm_compute; reflexivity). intros [|] [| | |]; vm_compute; repeat split. Qed.
